@@ -135,7 +135,7 @@ def _respell(cmd, argv, cwd):
 
 VERBOSE = {"rng": None, "rate": 0.15}
 HANG_SECONDS = 60.0  # first look at the clock
-HANG_CPU_SECONDS = 45.0  # CPU time one command may burn (the slowest legitimate one, a 4000-file tree, needs about 10 s)
+HANG_CPU_SECONDS = 75.0  # CPU time one command may burn (record lookup is linear per file: a 4000-file tree needs 10-20 s)
 
 
 class CommandHang(Exception):
@@ -209,10 +209,16 @@ def _divergence_audit(r, cwd):
 
     if clock._state["now"] is not None and r.cmd == "verify" and "-co" in r.argv:
         return
+    text = (r.out or "") + "\x00".join(str(a) for a in r.argv) + (repr(r.exc) if r.exc is not None else "")
+    if any(0xD800 <= ord(ch) <= 0xDFFF for ch in text):
+        # names with bytes that are not UTF-8 do not pass a text pipe the same way as an in-memory stream: not comparable
+        AUDIT["skipped_not_utf8"] = AUDIT.get("skipped_not_utf8", 0) + 1
+        return
     sub = run_sub("bare:" + r.cmd, r.argv, cwd=cwd, timeout=120)
     AUDIT["done"] += 1
     exit_in = 1 if r.internal else r.exit
-    if sub.exit != exit_in or (r.out or "") != (sub.out or ""):
+    # (click's test runner hands out its captured output with "\r\n" turned into "\n": a name may contain that pair)
+    if sub.exit != exit_in or (r.out or "").replace("\r\n", "\n") != (sub.out or "").replace("\r\n", "\n"):
         raise HarnessDivergence(f"{r.cmd} {r.argv}: in-process exit={exit_in} sub-process exit={sub.exit}; stdout equal={(r.out or '') == (sub.out or '')}")
 
 
